@@ -276,7 +276,10 @@ func c17Seq() []fw.Scenario {
 		}
 	}})
 	scns = append(scns, fw.Scenario{ID: "C17/Dematerialize|Materialize", Group: "Materialize", Run: func(c *fw.Ctx) {
-		for _, w := range h.Legal([]interface{}{1, 2}, 4, []h.Kind{h.C, h.E}, true) {
+		words := h.Legal([]interface{}{1, 2}, 4, []h.Kind{h.C, h.E}, true)
+		// an Error notification whose error value is nil is still an Error
+		words = append(words, []h.Ev{h.Er(nil)}, []h.Ev{h.Nx(1), h.Er(nil)}, []h.Ev{h.Nx(1), h.Nx(2), h.Er(nil)})
+		for _, w := range words {
 			w := w
 			c.Explore(fw.Case{Name: "notifications:" + h.Word(w), Make: func() fw.Instance {
 				rec := h.NewRec("out")
@@ -303,6 +306,26 @@ func c17Seq() []fw.Scenario {
 					}
 					if notifString(got) != notifString(want) {
 						return []fw.Violation{fw.V("bridge/Dematerialize|Materialize/identity/mismatch", fmt.Sprintf("notification stream [%s] came back as [%s]", notifString(want), notifString(got)))}
+					}
+					return nil
+				}}
+			}})
+		}
+	}})
+	scns = append(scns, fw.Scenario{ID: "C17/Materialize|Dematerialize", Group: "Materialize", Run: func(c *fw.Ctx) {
+		words := h.Legal([]interface{}{1, 2}, 3, []h.Kind{h.C, h.E}, true)
+		words = append(words, []h.Ev{h.Er(nil)}, []h.Ev{h.Nx(1), h.Er(nil)})
+		for _, w := range words {
+			w := w
+			c.Explore(fw.Case{Name: "stream:" + h.Word(w), Make: func() fw.Instance {
+				rec, direct := h.NewRec("round-trip"), h.NewRec("direct")
+				body := func() {
+					ro.Dematerialize[int]()(ro.Materialize[int]()(h.Script[int](h.NewSrc("s"), h.Unsafe, w))).Subscribe(h.Observer[int](rec))
+					h.Script[int](h.NewSrc("d"), h.Unsafe, w).Subscribe(h.Observer[int](direct))
+				}
+				return fw.Instance{Body: body, Outcome: rec.Trace, Check: func(r *vrt.Result) []fw.Violation {
+					if rec.Trace() != direct.Trace() {
+						return []fw.Violation{fw.V("bridge/Materialize|Dematerialize/identity/mismatch", fmt.Sprintf("stream [%s] came back as [%s] (direct subscription: [%s])", h.Word(w), rec.Trace(), direct.Trace()))}
 					}
 					return nil
 				}}
